@@ -34,7 +34,7 @@ FLOORS = {"quick": {"scripts": 5000, "notifications_checked": 150000, "initial_n
 
 FOREVER = 0xFFFFFF
 SID, MAJ = 0xA001, 4
-ENDPOINTS = [("v4", "10.0.17.11", 6001), ("v4", "10.0.17.12", 6002), ("v6", "2001:db8::17:1", 6003), ("v6", "2001:db8::17:2", 6004)]
+ENDPOINTS = [("v4", "10.0.17.11", 6001), ("v4", "10.0.17.11", 6002), ("v6", "2001:db8::17:1", 6003), ("v6", "2001:db8::17:1", 6004)]  # same hosts, other ports
 SUBSCRIBERS = [("10.0.17.11", 30490), ("10.0.17.12", 30490)]
 GROUPS = {1: (0x11, 0x12, 0x13), 2: (0x21, 0x22)}
 
